@@ -399,4 +399,241 @@ Proof.
     + intros k Hk. apply TT4. eapply upd_tidy_other; eauto.
 Qed.
 
+(* ------------------------------------------------------------------------------------------------ *)
+(** * The three write routes                                                                         *)
+
+Definition mspun : string := "ModelSuppliedPlanningUnitName".
+Definition tidy5 (a : attrs) : Prop := tidy4 a /\ tidy a mspun /\ a_value a mspun = AStr "SubCatchment".
+
+(* [m'] is [m] after a successful action-set write: same scenario, and -- when the derived attribute names were tidy --
+   the attribute lookup is the old one with the derived attributes of the NEW action set written over it *)
+Definition Wrote (tbl : option table) (m m' : mstate) : Prop :=
+  m_desc m' = m_desc m /\ m_id m' = m_id m /\
+  (tidy5 (m_attrs m) ->
+   tidy5 (m_attrs m') /\ forall k, a_value (m_attrs m') k = dview tbl (m_desc m) (m_bits m') (a_value (m_attrs m)) k).
+
+Lemma dview_base_irrelevant_at_encoding : forall tbl d b (base base' : string -> aval) k,
+  (forall k, String.eqb k "Encoding" = false -> base k = base' k) -> dview tbl d b base k = dview tbl d b base' k.
+Proof.
+  intros tbl d b base base' k H. unfold dview.
+  destruct (String.eqb k "ValidationErrors"); [reflexivity|].
+  destruct (String.eqb k "ValidAgainstScenario"); [reflexivity|].
+  destruct (String.eqb k "ParetoFrontMember") eqn:EP.
+  - apply String.eqb_eq in EP; subst k. destruct (front_of tbl b); [reflexivity|]. now apply H.
+  - destruct (String.eqb k "Encoding") eqn:EE; [reflexivity|]. now apply H.
+Qed.
+
+Lemma derive_Wrote : forall tbl (m m' : mstate) b a0,
+  derive tbl {| m_desc := m_desc m; m_id := m_id m; m_bits := b; m_attrs := a0 |} = Ok m' ->
+  (forall k, String.eqb k "Encoding" = false -> a_value a0 k = a_value (m_attrs m) k) ->
+  (forall k, tidy (m_attrs m) k -> tidy a0 k) ->
+  Wrote tbl m m' /\ m_bits m' = b.
+Proof.
+  intros tbl m m' b a0 H Hv Ht.
+  assert (Hb : m_bits m' = b).
+  { unfold derive, res_bind in H. repeat match type of H with match ?e with Ok _ => _ | Panic => _ end = _ => destruct e; [|discriminate] end.
+    inversion H; reflexivity. }
+  split; [|exact Hb]. unfold Wrote.
+  assert (Hd : m_desc m' = m_desc m /\ m_id m' = m_id m).
+  { unfold derive, res_bind in H. repeat match type of H with match ?e with Ok _ => _ | Panic => _ end = _ => destruct e; [|discriminate] end.
+    inversion H; split; reflexivity. }
+  destruct Hd as [Hd Hi]. split; [exact Hd|]. split; [exact Hi|].
+  intros ((T1 & T2 & T3 & T4) & T5 & V5).
+  destruct (derive_view tbl _ m' H) as (Vw & TT & _).
+  { simpl. repeat split; apply Ht; assumption. }
+  simpl in Vw, TT. split.
+  - split; [repeat split; apply TT, Ht; assumption|]. split; [apply TT, Ht; exact T5|].
+    rewrite Vw. unfold dview, mspun. simpl. rewrite Hv; [exact V5|reflexivity].
+  - intro k. rewrite Vw, Hb. now apply dview_base_irrelevant_at_encoding.
+Qed.
+
+Definition is_encoding_patch (r : request) : bool :=
+  match rq_json r with JsonAttrs [(k, AStr _)] => String.eqb k "Encoding" | _ => false end.
+Definition is_action_write (r : request) : bool :=
+  match rq_meth r, rq_route r with
+  | MPut, RActive => true
+  | MPut, RSubcatchment _ => true
+  | MPatch, RModel => is_encoding_patch r
+  | _, _ => false
+  end.
+Definition pure_route (r : request) : bool := is_read r || is_action_write r.
+
+Definition write_outcome (s s' : state) (resp : response V) : Prop :=
+  (s' = s /\ rs_status resp <> 200) \/ (rs_status resp = 200 /\ exists m m', st_model s = Some m /\ s' = with_model s m' (snapshot_of m')
+                                                   /\ Wrote (st_soltable s) m m').
+
+Ltac use_inv HI :=
+  let HE := fresh "HE" in let HT := fresh "HT" in let HS := fresh "HS" in
+  destruct HI as [[HE | HE] [HT HS]];
+  [ destruct HE as (Et & En & Em & Esn & Ep & Est & Esb)
+  | destruct HE as (t0 & n0 & m0 & p0 & Et & En & Em & Ep & Esn & Eid & Elen) ].
+
+Lemma put_active_step : forall s r resp s', Inv s -> wf_request r = true ->
+  put_active s r = Ok (resp, s') -> write_outcome s s' resp.
+Proof.
+  intros s r resp s' HI Hwf H. unfold put_active in H. unfold write_outcome.
+  use_inv HI; rewrite Esn in H; [unfold fail in H; inversion H; left; split; [reflexivity|simpl; intro; discriminate]|].
+  destruct (rq_ctype r); try (unfold fail in H; inversion H; left; split; [reflexivity|simpl; intro; discriminate]).
+  destruct (rq_csv r) as [|t|]; [unfold fail in H; inversion H; left; split; [reflexivity|simpl; intro; discriminate]| |discriminate].
+  unfold res_bind in H. destruct (actions_table_ok t) as [ok|]; [|discriminate].
+  destruct ok; simpl in H; [|unfold fail in H; inversion H; left; split; [reflexivity|simpl; intro; discriminate]].
+  rewrite Em in H.
+  destruct (process_rows (d_actions (m_desc m0)) (t_header t) (t_rows t) (m_bits m0)) as [bits|]; [|discriminate].
+  match type of H with match ?e with Ok _ => _ | Panic => _ end = _ => destruct e as [m1|] eqn:ED; [|discriminate] end.
+  unfold respond in H. inversion H; subst. right. split; [reflexivity|].
+  exists m0, m1. split; [exact Em|]. split; [reflexivity|].
+  destruct (derive_Wrote (st_soltable s) m0 m1 bits (m_attrs m0) ED) as [W _]; auto.
+Qed.
+
+Lemma put_subcatchment_step : forall s id r resp s', Inv s -> wf_request r = true ->
+  put_subcatchment s id r = Ok (resp, s') -> write_outcome s s' resp.
+Proof.
+  intros s id r resp s' HI Hwf H. unfold put_subcatchment in H. unfold write_outcome.
+  use_inv HI; rewrite Esn in H; [unfold fail in H; inversion H; left; split; [reflexivity|simpl; intro; discriminate]|].
+  destruct id as [pu|]; [|unfold fail in H; inversion H; left; split; [reflexivity|simpl; intro; discriminate]].
+  destruct (negb (model_contains (snapshot_of m0) pu)); [unfold fail in H; inversion H; left; split; [reflexivity|simpl; intro; discriminate]|].
+  unfold need_name, res_bind in H. rewrite En in H.
+  destruct (rq_json r) as [|l|]; [unfold fail in H; inversion H; left; split; [reflexivity|simpl; intro; discriminate]| |discriminate].
+  destruct (negb (syntax_ok l)); [unfold fail in H; inversion H; left; split; [reflexivity|simpl; intro; discriminate]|].
+  rewrite Em in H.
+  destruct (negb (supported (d_actions (m_desc m0)) pu l)); [unfold fail in H; inversion H; left; split; [reflexivity|simpl; intro; discriminate]|].
+  match type of H with match ?e with Ok _ => _ | Panic => _ end = _ => destruct e as [m1|] eqn:ED; [|discriminate] end.
+  unfold respond in H. inversion H; subst. right. split; [reflexivity|].
+  exists m0, m1. split; [exact Em|]. split; [reflexivity|].
+  destruct (derive_Wrote (st_soltable s) m0 m1 _ (m_attrs m0) ED) as [W _]; auto.
+Qed.
+
+Lemma derive_frame : forall tbl (m m' : mstate), derive tbl m = Ok m' ->
+  m_desc m' = m_desc m /\ m_id m' = m_id m /\ m_bits m' = m_bits m.
+Proof.
+  intros tbl m m' H. unfold derive, res_bind in H.
+  repeat match type of H with match ?e with Ok _ => _ | Panic => _ end = _ => destruct e; [|discriminate] end.
+  inversion H; repeat split; reflexivity.
+Qed.
+
+Lemma patch_encoding_step : forall s r resp s', Inv s -> wf_request r = true -> is_encoding_patch r = true ->
+  patch_model s r = Ok (resp, s') -> write_outcome s s' resp.
+Proof.
+  intros s r resp s' HI Hwf Hp H. unfold patch_model in H. unfold write_outcome.
+  use_inv HI; rewrite Esn in H; [unfold fail in H; inversion H; left; split; [reflexivity|simpl; intro; discriminate]|].
+  destruct (rq_ctype r); try (unfold fail in H; inversion H; left; split; [reflexivity|simpl; intro; discriminate]).
+  unfold is_encoding_patch in Hp.
+  destruct (rq_json r) as [|l|]; try discriminate.
+  destruct l as [|[k v] l]; try discriminate. destruct v as [| |e|]; try discriminate. destruct l; try discriminate.
+  apply String.eqb_eq in Hp; subst k.
+  rewrite Em in H.
+  destruct (patch_valid (List.length (d_actions (m_desc m0))) [("Encoding", AStr e)]) eqn:Hv; cbn [negb] in H;
+    [|unfold fail in H; inversion H; left; split; [reflexivity|simpl; intro; discriminate]].
+  cbn [patch_valid] in Hv. rewrite String.eqb_refl, andb_true_r in Hv. unfold decodes in Hv.
+  rewrite (decode_flag _ _ (m_bits m0) e (repeat_length' _ _ _) Elen) in Hv.
+  unfold res_bind in H. cbn [patch_apply] in H. rewrite String.eqb_refl in H. cbn [m_desc m_bits m_id m_attrs] in H.
+  destruct (decode (List.length (d_actions (m_desc m0))) (m_bits m0) e) as [ok bits] eqn:D. simpl in Hv. subst ok.
+  match type of H with context[derive (st_soltable s) ?mm] => destruct (derive (st_soltable s) mm) as [m1|] eqn:ED1; [|discriminate] end.
+  cbn [patch_apply] in H. unfold res_bind in H. cbv beta iota in H.
+  destruct (derive (st_soltable s) m1) as [m3|] eqn:ED3; [|discriminate].
+  unfold respond in H. inversion H; subst. right. split; [reflexivity|].
+  exists m0, m3. split; [exact Em|]. split; [reflexivity|].
+  destruct (derive_frame _ _ _ ED1) as (Hd1 & Hi1 & Hb1). destruct (derive_frame _ _ _ ED3) as (Hd3 & Hi3 & Hb3).
+  simpl in Hd1, Hi1, Hb1.
+  unfold Wrote. split; [congruence|]. split; [congruence|].
+  intros T5. pose proof T5 as ((T1 & T2 & T3 & T4) & Tm & Vm).
+  set (aj := a_join (m_attrs m0) [("Encoding", AStr e)]) in *.
+  assert (Ue : upd (m_attrs m0) aj "Encoding" (AStr e)) by (apply ca_replace_upd; [exact T1|reflexivity]).
+  assert (Um : upd aj (ca_replace aj "ModelSuppliedPlanningUnitName" (AStr "SubCatchment")) mspun (AStr "SubCatchment")).
+  { apply ca_replace_upd; [|reflexivity]. eapply upd_tidy_other; eauto. }
+  destruct (derive_Wrote (st_soltable s) m0 m1 bits _ ED1) as [W1 Hbits1].
+  { intros k Hk. destruct Um as [Hvm _]. destruct Ue as [Hve _]. rewrite Hvm, Hve, Hk.
+    destruct (String.eqb k mspun) eqn:Ek; [|reflexivity]. apply String.eqb_eq in Ek; subst k. now rewrite Vm. }
+  { intros k Hk. eapply upd_tidy_other; [exact Um|]. eapply upd_tidy_other; eauto. }
+  destruct W1 as (_ & _ & W1). destruct (W1 T5) as (((S1 & S2 & S3 & S4) & Sm & SVm) & View1).
+  destruct (derive_view (st_soltable s) m1 m3 ED3) as (View3 & TT3 & _); [repeat split; assumption|].
+  split.
+  - split; [repeat split; apply TT3; assumption|]. split; [now apply TT3|].
+    rewrite View3. unfold dview, mspun. simpl. exact SVm.
+  - intro k. rewrite View3, Hb3, Hd1.
+    rewrite (dview_ext _ _ _ _ _ k View1). rewrite Hbits1. apply dview_idem. exact HT.
+Qed.
+
+Lemma pure_step : forall s r resp s', Inv s -> wf_request r = true -> pure_route r = true ->
+  handle s r = Ok (resp, s') -> (s' = s /\ is_read r = true) \/ (is_read r = false /\ write_outcome s s' resp).
+Proof.
+  intros s r resp s' HI Hwf Hp H. unfold pure_route in Hp. apply orb_true_iff in Hp. destruct Hp as [Hr|Hw].
+  - destruct (read_keeps_state s r HI Hr) as [resp0 H0]. rewrite H in H0. inversion H0. now left.
+  - right. unfold is_action_write in Hw. unfold handle in H. unfold is_read.
+    destruct (rq_meth r); try discriminate; destruct (rq_route r); try discriminate; (split; [reflexivity|]).
+    + eapply put_active_step; eauto.
+    + eapply put_subcatchment_step; eauto.
+    + eapply patch_encoding_step; eauto.
+Qed.
+
+Lemma Wrote_trans : forall tbl (m m1 m2 : mstate), tbl_ok tbl -> Wrote tbl m m1 -> Wrote tbl m1 m2 -> Wrote tbl m m2.
+Proof.
+  intros tbl m m1 m2 Ht (Hd1 & Hi1 & W1) (Hd2 & Hi2 & W2). unfold Wrote.
+  split; [congruence|]. split; [congruence|].
+  intro T5. destruct (W1 T5) as [T51 V1]. destruct (W2 T51) as [T52 V2]. split; [exact T52|].
+  intro k. rewrite V2, Hd1. rewrite (dview_ext _ _ _ _ _ k V1). now apply dview_idem.
+Qed.
+
+Definition wrote (s : state) (rs : list request) : bool := existsb (fun r => negb (is_read r)) (applied s rs).
+
+Lemma pure_run : forall (rs : list request) (s s' : state),
+  Inv s -> forallb wf_request rs = true -> forallb pure_route rs = true -> run s rs = Ok s' ->
+  (s' = s /\ wrote s rs = false)
+  \/ (wrote s rs = true /\ exists m m', st_model s = Some m /\ st_model s' = Some m' /\ st_snap s' = Some (snapshot_of m')
+                                      /\ Wrote (st_soltable s) m m').
+Proof.
+  induction rs as [|r rs IH]; intros s s' HI Hwf Hp Hrun; simpl in *.
+  - inversion Hrun; subst. left. split; reflexivity.
+  - apply andb_true_iff in Hwf. destruct Hwf as [Hwr Hwrs]. apply andb_true_iff in Hp. destruct Hp as [Hpr Hprs].
+    destruct (handle s r) as [[resp s1]|] eqn:E; [|discriminate].
+    destruct (handle_spec s r HI Hwr) as (resp0 & s10 & E0 & HI1 & _). rewrite E in E0. inversion E0; subst resp0 s10. clear E0.
+    unfold wrote. simpl. rewrite E.
+    destruct (pure_step s r resp s1 HI Hwr Hpr E) as [[Hs Hr]|[Hr [[Hs Hst]|(Hst & m & m1 & Em & Es1 & W1)]]].
+    + (* a read *) subst s1.
+      destruct (IH s s' HI Hwrs Hprs Hrun) as [[Hs' Hw]|(Hw & m & m' & Em & Em' & Esn & W)].
+      * left. split; [exact Hs'|]. rewrite existsb_app. unfold wrote in Hw. rewrite Hw.
+        destruct (Nat.eqb (rs_status resp) 200); simpl; [rewrite Hr; reflexivity|reflexivity].
+      * right. split; [|exists m, m'; split; [exact Em|split; [exact Em'|split; [exact Esn|exact W]]]]. rewrite existsb_app. unfold wrote in Hw. rewrite Hw. apply orb_true_r.
+    + (* a write answered with an error *) subst s1.
+      destruct (Nat.eqb (rs_status resp) 200) eqn:E200; [apply Nat.eqb_eq in E200; congruence|]. simpl.
+      destruct (IH s s' HI Hwrs Hprs Hrun) as [[Hs' Hw]|(Hw & m & m' & Em & Em' & Esn & W)].
+      * left. split; assumption.
+      * right. split; [exact Hw|exists m, m'; split; [exact Em|split; [exact Em'|split; [exact Esn|exact W]]]].
+    + (* a successful write *)
+      rewrite Hst. simpl. rewrite Hr. simpl. right. split; [reflexivity|].
+      assert (Etbl : st_soltable s1 = st_soltable s) by (subst s1; reflexivity).
+      assert (Em1 : st_model s1 = Some m1) by (subst s1; reflexivity).
+      assert (Esn1 : st_snap s1 = Some (snapshot_of m1)) by (subst s1; reflexivity).
+      destruct (IH s1 s' HI1 Hwrs Hprs Hrun) as [[Hs' Hw]|(Hw & m' & m2 & Em' & Em2 & Esn2 & W2)].
+      * subst s'. exists m, m1. split; [exact Em|split; [exact Em1|split; [exact Esn1|exact W1]]].
+      * rewrite Em1 in Em'. inversion Em'; subst m'. exists m, m2. split; [exact Em|]. split; [exact Em2|]. split; [exact Esn2|].
+        rewrite Etbl in W2. eapply Wrote_trans; eauto. destruct HI as [_ [HT _]]. exact HT.
+Qed.
+
+(* what GET /model serves, compared through attribute lookup *)
+Definition same_representation (sn1 sn2 : snapshot) : Prop :=
+  sn_id sn1 = sn_id sn2 /\ sn_desc sn1 = sn_desc sn2 /\ sn_bits sn1 = sn_bits sn2 /\ sn_vars sn1 = sn_vars sn2
+  /\ forall k, a_value (sn_attrs sn1) k = a_value (sn_attrs sn2) k.
+
+Theorem route_equivalence : forall (s s1 s2 : state) (rs1 rs2 : list request) m,
+  reachable s -> st_model s = Some m -> tidy5 (m_attrs m) ->
+  forallb wf_request rs1 = true -> forallb pure_route rs1 = true -> run s rs1 = Ok s1 -> wrote s rs1 = true ->
+  forallb wf_request rs2 = true -> forallb pure_route rs2 = true -> run s rs2 = Ok s2 -> wrote s rs2 = true ->
+  option_map m_bits (st_model s1) = option_map m_bits (st_model s2) ->
+  exists sn1 sn2, st_snap s1 = Some sn1 /\ st_snap s2 = Some sn2 /\ same_representation sn1 sn2.
+Proof.
+  intros s s1 s2 rs1 rs2 m Hreach Em T5 Hw1 Hp1 Hr1 Hwr1 Hw2 Hp2 Hr2 Hwr2 Hbits.
+  pose proof (reachable_Inv s Hreach) as HI.
+  destruct (pure_run rs1 s s1 HI Hw1 Hp1 Hr1) as [[_ Hc]|(_ & ma & m1 & Ema & Em1 & Esn1 & W1)]; [congruence|].
+  destruct (pure_run rs2 s s2 HI Hw2 Hp2 Hr2) as [[_ Hc]|(_ & mb & m2 & Emb & Em2 & Esn2 & W2)]; [congruence|].
+  rewrite Em in Ema, Emb. inversion Ema; subst ma. inversion Emb; subst mb.
+  rewrite Em1, Em2 in Hbits. simpl in Hbits. inversion Hbits as [Hb].
+  destruct W1 as (Hd1 & Hi1 & W1). destruct W2 as (Hd2 & Hi2 & W2).
+  destruct (W1 T5) as [_ V1]. destruct (W2 T5) as [_ V2].
+  exists (snapshot_of m1), (snapshot_of m2). split; [exact Esn1|]. split; [exact Esn2|].
+  unfold same_representation, snapshot_of; simpl. rewrite !a_join_nil.
+  split; [congruence|]. split; [congruence|]. split; [congruence|]. split; [congruence|].
+  intro k. rewrite V1, V2, Hb. reflexivity.
+Qed.
+
 End C14.
